@@ -152,6 +152,15 @@ class Run:
         self.log("MC %s: %d generated, %d distinct, depth %d, %.1fs" % (cfg, r.generated, r.distinct, r.depth, r.wall))
         return r
 
+    def negative_control(self, module, cfg, expected):
+        """A deliberately broken variant of the design model must violate `expected`; otherwise the model
+        (or the property) is vacuous and the check refuses to go on."""
+        r = self.tlc(module, cfg, allow_violation=True, name="negative-control:" + cfg)
+        if expected not in r.violated:
+            raise Inconclusive("negative control %s did not violate %s (got %s)" % (cfg, expected, r.violated))
+        self.log("negative control %s violates %s as required" % (cfg, expected))
+        return r
+
     # ---------------------------------------------------------------- trace validation
     def validate(self, module, cfg, ndjson, timeout=900, deque=False, heap="4g", fname="trace.ndjson"):
         """Run the trace spec over one NDJSON file (in a private copy of the spec directory, so
